@@ -2,7 +2,7 @@
 From Coq Require Import NArith Bool List Arith.
 From Common Require Import Bits.
 From Gen Require Import GcHeader.
-From C09 Require Import GcModel HeaderRefine Spec_C09 Mark_C09 Fin_C09 Step_C09 Collect_C09 Witness_C09 Hist_C09 Weak_C09.
+From C09 Require Import GcModel HeaderRefine Spec_C09 Mark_C09 Fin_C09 Step_C09 Collect_C09 Witness_C09 Hist_C09 Weak_C09 DeepRes_C09.
 Import ListNotations.
 
 (* ---------------------------------------------------------------------------------------------- *)
@@ -195,3 +195,96 @@ Check ephemeron_value_some_live : forall ops e v,
   snd (step s (EphValue e)) = OSome v ->
   In v (ids_s (strongs s)) /\ exists k, data_of s e = Some (k, Some v) /\ In k (ids_s (strongs s)).
 Print Assumptions ephemeron_value_some_live.
+
+(* ---------------------------------------------------------------------------------------------- *)
+(* 7. deepening round: resurrection as the code behaves (clones first, then the children's counts are
+      decremented, second mark with the stale non-root counts) - exactly when it is safe *)
+
+(* a collection is exact and keeps the invariant whenever every handle cloned by a finalizer that runs points to
+   a box that is reachable anyway; the clones are added to the root list *)
+Theorem collect_exact_live_resurrection : forall s s' g,
+  Inv s -> poisoned s = false -> res_targets_live s -> collect s = (s', g) ->
+  Inv s' /\ poisoned s' = false /\
+  (forall n, In n (ids_s (strongs s')) <-> In n (ids_s (strongs s)) /\ Reach s n) /\
+  (forall e, In e (ids_e (weaks s')) <-> In e (ids_e (weaks s)) /\ ReachE s e) /\
+  (forall n, In n (g_drop g) <-> is_node (strongs s) n = true /\ ~ Reach s n) /\
+  g_fin g = g_drop g /\ NoDup (g_drop g) /\ g_held g = [] /\
+  (forall n, cnt n (ext_s s') = cnt n (ext_s s) + cnt n (g_res g)) /\
+  (forall n, In n (g_res g) -> Reach s n) /\
+  ext_e s' = ext_e s /\ next_s s' = next_s s /\ next_e s' = next_e s.
+Proof. exact collect_exact_live_res. Qed.
+Check collect_exact_live_resurrection : forall s s' g,
+  Inv s -> poisoned s = false -> res_targets_live s -> collect s = (s', g) ->
+  Inv s' /\ poisoned s' = false /\
+  (forall n, In n (ids_s (strongs s')) <-> In n (ids_s (strongs s)) /\ Reach s n) /\
+  (forall e, In e (ids_e (weaks s')) <-> In e (ids_e (weaks s)) /\ ReachE s e) /\
+  (forall n, In n (g_drop g) <-> is_node (strongs s) n = true /\ ~ Reach s n) /\
+  g_fin g = g_drop g /\ NoDup (g_drop g) /\ g_held g = [] /\
+  (forall n, cnt n (ext_s s') = cnt n (ext_s s) + cnt n (g_res g)) /\
+  (forall n, In n (g_res g) -> Reach s n) /\
+  ext_e s' = ext_e s /\ next_s s' = next_s s /\ next_e s' = next_e s.
+Print Assumptions collect_exact_live_resurrection.
+
+(* histories with arbitrary finalizer kinds are safe as long as no collection resurrects a dead target ... *)
+Theorem safe_unless_dead_target_resurrected : forall ops,
+  live_res_run init ops ->
+  Inv (exec init ops) /\ poisoned (exec init ops) = false /\
+  NoDup (drop_log (snd (run init ops))) /\ fin_log (snd (run init ops)) = drop_log (snd (run init ops)).
+Proof. exact DeepRes_C09.safe_unless_dead_target_resurrected. Qed.
+Check safe_unless_dead_target_resurrected : forall ops,
+  live_res_run init ops ->
+  Inv (exec init ops) /\ poisoned (exec init ops) = false /\
+  NoDup (drop_log (snd (run init ops))) /\ fin_log (snd (run init ops)) = drop_log (snd (run init ops)).
+Print Assumptions safe_unless_dead_target_resurrected.
+
+(* ... in particular as long as every collection's `res` list is empty: the class predicate of the known finding
+   ("the failure is at or after a collection whose finalizers resurrected something") as a theorem *)
+Theorem safe_while_nothing_resurrected : forall ops,
+  no_res_run init ops ->
+  Inv (exec init ops) /\ poisoned (exec init ops) = false /\
+  NoDup (drop_log (snd (run init ops))) /\ fin_log (snd (run init ops)) = drop_log (snd (run init ops)).
+Proof. exact DeepRes_C09.safe_while_nothing_resurrected. Qed.
+Check safe_while_nothing_resurrected : forall ops,
+  no_res_run init ops ->
+  Inv (exec init ops) /\ poisoned (exec init ops) = false /\
+  NoDup (drop_log (snd (run init ops))) /\ fin_log (snd (run init ops)) = drop_log (snd (run init ops)).
+Print Assumptions safe_while_nothing_resurrected.
+
+(* the converse, for finalizers that clone at most once: resurrecting a dead target frees it while the clone is
+   held (or leaves a dangling handle): the invariant is lost *)
+Theorem resurrection_of_dead_target_unsafe : forall s b k,
+  Inv s -> poisoned s = false -> fin_at_most_once s ->
+  In b (strongs s) -> ~ Reach s (s_id b) -> s_fin b = 1 -> In k (s_kids b) -> ~ Reach s k ->
+  In k (g_res (snd (collect s))) /\ In k (ext_s (fst (collect s))) /\
+  ~ In k (ids_s (strongs (fst (collect s)))) /\
+  poisoned (fst (collect s)) = true /\ ~ Inv (fst (collect s)) /\
+  (is_node (strongs s) k = true -> In k (g_drop (snd (collect s))) /\ In k (g_held (snd (collect s)))).
+Proof. exact dead_target_unsafe. Qed.
+Check resurrection_of_dead_target_unsafe : forall s b k,
+  Inv s -> poisoned s = false -> fin_at_most_once s ->
+  In b (strongs s) -> ~ Reach s (s_id b) -> s_fin b = 1 -> In k (s_kids b) -> ~ Reach s k ->
+  In k (g_res (snd (collect s))) /\ In k (ext_s (fst (collect s))) /\
+  ~ In k (ids_s (strongs (fst (collect s)))) /\
+  poisoned (fst (collect s)) = true /\ ~ Inv (fst (collect s)) /\
+  (is_node (strongs s) k = true -> In k (g_drop (snd (collect s))) /\ In k (g_held (snd (collect s)))).
+Print Assumptions resurrection_of_dead_target_unsafe.
+
+(* safe iff only live targets are resurrected (finalizers cloning at most once; with two or more clones a dead
+   target can out-count its lost handles and survive: not characterised) *)
+Theorem resurrection_safe_iff_partial : forall s,
+  Inv s -> poisoned s = false -> fin_at_most_once s ->
+  (res_targets_live s <-> poisoned (fst (collect s)) = false).
+Proof. exact live_res_iff_safe. Qed.
+Check resurrection_safe_iff_partial : forall s,
+  Inv s -> poisoned s = false -> fin_at_most_once s ->
+  (res_targets_live s <-> poisoned (fst (collect s)) = false).
+Print Assumptions resurrection_safe_iff_partial.
+
+Theorem first_dead_target_resurrection_poisons : forall ops,
+  live_res_run init ops -> fin_at_most_once (exec init ops) ->
+  (res_targets_live (exec init ops) <-> poisoned (exec init (ops ++ [Collect])) = false).
+Proof. exact first_dead_target_poisons. Qed.
+Check first_dead_target_resurrection_poisons : forall ops,
+  live_res_run init ops -> fin_at_most_once (exec init ops) ->
+  (res_targets_live (exec init ops) <-> poisoned (exec init (ops ++ [Collect])) = false).
+Print Assumptions first_dead_target_resurrection_poisons.
